@@ -4,6 +4,7 @@ transcendental / irrational function applications.  A point is reported only if 
 evaluates to true and the goal to false with a clear margin; it is a *numerically certified* counterexample (not a solver
 model) and is marked as such - the replay on the real code is what finally confirms it."""
 import random
+import re
 from fractions import Fraction
 
 import z3
@@ -228,7 +229,7 @@ class Tape:
         self.index[k] = len(self.code)
         self.code.append(ins)
 
-    def run(self, env):
+    def run(self, env, floor=1.0):
         import math
         vals = [None] * len(self.code)
         for i, (op, pl, ci) in enumerate(self.code):
@@ -281,7 +282,7 @@ class Tape:
                         x, y = a
                         if x == y:
                             v = op in ('le', 'ge')
-                        elif abs(x - y) <= 1e-7 * max(abs(x), abs(y), 1.0):
+                        elif abs(x - y) <= 1e-7 * max(abs(x), abs(y), floor):
                             v = None
                         else:
                             v = {'le': x < y, 'lt': x < y, 'ge': x > y, 'gt': x > y}[op]
@@ -289,9 +290,9 @@ class Tape:
                         x, y = a
                         if isinstance(x, bool) or isinstance(y, bool):
                             v = bool(x) == bool(y)
-                        elif x == y or abs(x - y) <= 1e-9 * max(abs(x), abs(y), 1.0):
+                        elif x == y or abs(x - y) <= 1e-9 * max(abs(x), abs(y), floor):
                             v = True
-                        elif abs(x - y) <= 1e-5 * max(abs(x), abs(y), 1.0):
+                        elif abs(x - y) <= 1e-5 * max(abs(x), abs(y), floor):
                             v = None
                         else:
                             v = False
@@ -299,7 +300,7 @@ class Tape:
                         v = True
                         for p_ in range(len(a)):
                             for q_ in range(p_ + 1, len(a)):
-                                if abs(a[p_] - a[q_]) <= 1e-7 * max(abs(a[p_]), abs(a[q_]), 1.0):
+                                if abs(a[p_] - a[q_]) <= 1e-7 * max(abs(a[p_]), abs(a[q_]), floor):
                                     v = None if a[p_] != a[q_] else False
                     elif op == 'f':
                         v = _float_uf(pl, a)
@@ -567,6 +568,34 @@ def free_consts(terms):
     return out
 
 
+def extreme_scales(terms):
+    """powers of ten suggested by the very small / very large numerals of the terms (thresholds such as machine epsilon, absolute
+    tolerances, regularisers): the magnitudes at which a comparison against them can go either way"""
+    import math
+    seen, out = set(), set()
+    stack = list(terms)
+    while stack:
+        t = stack.pop()
+        k = t.get_id()
+        if k in seen:
+            continue
+        seen.add(k)
+        if z3.is_rational_value(t) or z3.is_int_value(t):
+            try:
+                v = abs(Fraction(t.numerator_as_long(), t.denominator_as_long())) if z3.is_rational_value(t) else abs(Fraction(t.as_long()))
+            except Exception:
+                continue
+            if v != 0 and (v < Fraction(1, 10**5) or v > 10**5):
+                e = int(round(math.log10(float(v)))) if v < Fraction(10)**300 and v > Fraction(1, 10**300) else None
+                if e is not None:
+                    for ee in (e // 2 - 1, e // 2, e - 1, e, e + 1, e // 4):
+                        if ee != 0 and abs(ee) <= 40:
+                            out.add(Fraction(10) ** ee)
+        elif z3.is_app(t) and t.num_args():
+            stack.extend(t.children())
+    return sorted(out)
+
+
 _ALLOWED_CACHE = {}
 SQUARES = [Fraction(x) for x in ("1", "4", "1/4", "9/4", "9", "1/9", "16", "25/4", "49/16")]
 BOTH = None
@@ -642,6 +671,20 @@ def search(pc, goal, trials=300, seed=0):
         return rnd.choice(pref if pref and rnd.random() < 0.8 else ok)
     tape = Tape(list(pc) + [goal])
     defs_tape = Tape(list(defs.values())) if defs else None
+    # families of real variables (entries of one matrix / one quantity): every 7th trial puts one family - or all of them - at
+    # another order of magnitude, which is how conditions on absolute magnitudes (thresholds, regularisers, absolute tolerances)
+    # become reachable
+    fams = {}
+    for v in free:
+        if not (z3.is_bool(v) or z3.is_int(v)):
+            fams.setdefault(re.split(r"[\d_\[(]", names[v.get_id()], 1)[0], []).append(v.get_id())
+    fam_names = sorted(fams)
+    SCALES = [Fraction(1, 10**9), Fraction(1, 10**6), Fraction(10**6), Fraction(1, 10**12), Fraction(1, 10**4), Fraction(10**9)]
+    special = extreme_scales(list(pc) + [goal])
+    every = 7
+    if special:
+        SCALES = special + SCALES[:2]
+        every = 2
     for trial in range(trials):
         env = {}
         pool = SQUARES if trial % 3 == 0 else (PLAIN if trial % 3 == 1 else BOTH)
@@ -652,6 +695,14 @@ def search(pc, goal, trials=300, seed=0):
                 env[v.get_id()] = draw(v, [Fraction(x) for x in (0, 1, 2, 3, 4, -1, 5)])
             else:
                 env[v.get_id()] = draw(v, pool)
+        scaled = False
+        if trial % every == every - 1 and fam_names:
+            scaled = True
+            sc = rnd.choice(SCALES)
+            chosen = fam_names if rnd.random() < 0.3 else [rnd.choice(fam_names)]
+            for f in chosen:
+                for k in fams[f]:
+                    env[k] = env[k] * sc
         try:
             ev = Evaluator(env)
             # resolve definitions (a few rounds for chains)
@@ -667,8 +718,9 @@ def search(pc, goal, trials=300, seed=0):
                     break
             if pending:
                 continue
-            vals = tape.run(env)
-            if _DEBUG and trial == 0:
+            vals = tape.run(env, 0.0 if scaled else 1.0)      # magnitudes are the point of a scaled trial: purely relative closeness
+            if _DEBUG and (trial == 0 or (trial % every == every - 1 and trial < 12)):
+                print("   numeval trial", trial, "goal value", vals[tape.roots[-1]], flush=True)
                 for t, ri in zip(pc, tape.roots):
                     if vals[ri] is not True:
                         print("   numeval: constraint", vals[ri], str(t)[:200].replace("\n", " "), flush=True)
